@@ -133,8 +133,10 @@ func genProfile(rng *core.Rng, i int) world.WorldSpec {
 		}
 	}
 	s.DG7Size, s.DG13Size = 30, 10
-	if rng.Chance(1, 4) {
+	if rng.Chance(1, 3) {
 		s.PACE = []world.PaceSpec{{Suite: chip.AES128, CAM: true, ParamID: core.Pick(rng, chip.AllParamIDs)}}
+		s.CardSecVariant = core.Pick(rng, []int{0, 1, 2, 3})
+		s.CardSecExtraKeys = core.Pick(rng, []int{0, 0, 1, 2})
 	}
 	return s
 }
@@ -174,6 +176,8 @@ func (PKIProfileEngine) Shrink(ci any) []any {
 	add(func(s *world.WorldSpec) { s.ExtraFirst = false })
 	add(func(s *world.WorldSpec) { s.EmbedCSCA = false })
 	add(func(s *world.WorldSpec) { s.HashOrder = 0 })
+	add(func(s *world.WorldSpec) { s.CardSecVariant = 0 })
+	add(func(s *world.WorldSpec) { s.CardSecExtraKeys = 0 })
 	add(func(s *world.WorldSpec) { s.Indefinite = false })
 	add(func(s *world.WorldSpec) { s.HashNoParams = false })
 	add(func(s *world.WorldSpec) { s.SignEdge = 0 })
@@ -199,7 +203,7 @@ func (PKIProfileEngine) Run(prop string, ci any) *core.Outcome {
 	log := &term.EventLog{}
 	log.Add("sod", w.LDS[chip.FidSOD])
 	d, err, pan := buildDocument(w, w.LDS, w.MF)
-	key := profileKey(c.Spec) + fmt.Sprintf("|edge=%d|extra=%d|name=%v|ski2=%v|np=%v", c.Spec.SignEdge, c.Spec.ExtraCerts, c.Spec.NameVariant, c.Spec.SameSKIDecoy, c.Spec.HashNoParams) + fmt.Sprintf("|xf=%v|ec=%v|ho=%d", c.Spec.ExtraFirst, c.Spec.EmbedCSCA, c.Spec.HashOrder)
+	key := profileKey(c.Spec) + fmt.Sprintf("|edge=%d|extra=%d|name=%v|ski2=%v|np=%v", c.Spec.SignEdge, c.Spec.ExtraCerts, c.Spec.NameVariant, c.Spec.SameSKIDecoy, c.Spec.HashNoParams) + fmt.Sprintf("|xf=%v|ec=%v|ho=%d", c.Spec.ExtraFirst, c.Spec.EmbedCSCA, c.Spec.HashOrder) + fmt.Sprintf("|cs=%d/%d", c.Spec.CardSecVariant, c.Spec.CardSecExtraKeys)
 	if pan != nil {
 		out.Violate("C09", "panic", key, "constructors panicked on a genuine document: %v", pan)
 		out.Violate("C12", "panic-in-constructor", "genuine", "constructors panicked on a genuine document: %v", pan)
@@ -270,7 +274,7 @@ var forgeryKinds = []string{
 	"A6i-resigned-own-chain", "A6ii-resigned-claims-genuine-csca", "A6iii-genuine-ds-other-key", "A6iv-attacker-csca-other-country", "A6v-foreign-ds-swapped",
 	"A7-anchor-removed", "A7-anchor-same-ski-other-key", "A7-anchor-not-ca", "A7-anchor-no-keycertsign", "A7-anchor-critical-eku", "A7-anchor-unknown-critical", "A7-anchor-no-bc", "A7-anchor-bc-ca-false",
 	"A7-ds-no-keyusage", "A7-ds-no-digitalsignature", "A7-ds-unknown-critical",
-	"A7-time-ds-before", "A7-time-ds-after", "A7-time-csca-after", "A7-time-csca-before", "A7-country-mismatch", "A7-wrong-content-type", "A7-wrong-message-digest",
+	"A7-time-ds-before", "A7-time-ds-after", "A7-time-csca-after", "A7-time-csca-before", "A7-country-mismatch", "A7-country-unmappable", "A7-wrong-content-type", "A7-econtenttype-relabelled", "A7-wrong-message-digest",
 	"A8-cardsec-econtent", "A8-cardsec-resigned-untrusted", "A8-cardsec-signedattrs", "A8-cardsec-foreign-signer",
 	"A9-ml-tampered", "A9-ml-wrong-root", "A9-ml-signer-unchained", "A9-ml-signer-no-ku", "A9-ml-byte", "A9-ml-own-anchor", "A9-ml-self-issued-signer",
 	"A10-sod-byte", "A10-cardsec-byte",
@@ -598,10 +602,14 @@ func (PKIForgeryEngine) Run(prop string, ci any) *core.Outcome {
 		}
 		sp.SigningTime = &t
 		resign(sp)
-	case "A7-country-mismatch":
+	case "A7-country-mismatch", "A7-country-unmappable":
 		other := lds.Countries[(c.Spec.Country+3)%len(lds.Countries)]
 		h := w.Holder
 		h.Issuer = other[0]
+		if c.Fault == "A7-country-unmappable" {
+			// an issuing state code without a country behind it (organisations, reserved and unassigned codes)
+			h.Issuer = []string{"UNO", "UNA", "EUE", "XXA", "XXB", "XOM", "UTO", "ZZZ", "XPO", "QQQ"}[c.A%10]
+		}
 		ldsF[chip.FidDG(1)] = lds.DG1(h.MRZ())
 		hashes := map[int][]byte{}
 		for k, v := range w.DGHashes {
@@ -614,6 +622,11 @@ func (PKIForgeryEngine) Run(prop string, ci any) *core.Outcome {
 	case "A7-wrong-content-type":
 		sp := w.SODSpec
 		sp.WrongContentType = true
+		resign(sp)
+	case "A7-econtenttype-relabelled":
+		// the unsigned eContentType label differs from the signed content-type attribute (RFC 5652 5.3: they must agree)
+		sp := w.SODSpec
+		sp.EncapType = [][]int{{1, 2, 840, 113549, 1, 7, 1}, {2, 23, 136, 1, 1, 2}, {1, 2, 840, 113549, 1, 7, 2}}[c.A%3]
 		resign(sp)
 	case "A7-wrong-message-digest":
 		sp := w.SODSpec
